@@ -5,6 +5,7 @@ import (
 	"encoding/json"
 	"errors"
 	"fmt"
+	"hash/fnv"
 	"io"
 	"os"
 	"os/exec"
@@ -39,13 +40,35 @@ var (
 	binErr  error
 )
 
-// fabioBin builds (once per check run: tools/check wipes .work/C02 when it starts) the verif binary.
+// fabioBin builds /repo's main package (or the scratch tree named by VERIF_REPO) with the verif tag.
+//
+// The binary must be the tree under test of THIS run. tools/check copies the harness binary into a directory of
+// its own per run (.work/C02-<pid>) and removes it afterwards: the child binary is built next to the harness
+// binary, once per run (the shards of a run find it under the file lock). Started from anywhere else (bin/fvh-c02
+// by hand, --replay) the binary is rebuilt on every start (incremental: the Go build cache) into a path keyed by
+// the tree. A first version kept ONE binary in .work/C02 "until the check wipes it" — the check stopped wiping
+// it, and every later run, including the runs against scratch trees with a seeded change, drove the update loops
+// of whatever tree had been built first (design/C02.md, "False alarms corrected / missed alarms", round 3).
 func fabioBin() (string, error) {
 	binOnce.Do(func() {
-		dir := filepath.Join(verifRoot(), ".work", "C02")
+		repo := repoRoot()
+		dir, perRun := "", false
+		if exe, err := os.Executable(); err == nil {
+			d := filepath.Dir(exe)
+			if strings.Contains(d, string(filepath.Separator)+".work"+string(filepath.Separator)) {
+				dir, perRun = d, true
+			}
+		}
+		name := "fabio-verif-c02"
+		if !perRun {
+			dir = filepath.Join(verifRoot(), ".work", "C02")
+			h := fnv.New32a()
+			h.Write([]byte(repo))
+			name = fmt.Sprintf("fabio-verif-c02-%08x", h.Sum32())
+		}
 		os.MkdirAll(dir, 0o755)
-		binPath = filepath.Join(dir, "fabio-verif")
-		lf, err := os.OpenFile(filepath.Join(verifRoot(), ".work", "C02-fabio.lock"), os.O_CREATE|os.O_RDWR, 0o644)
+		binPath = filepath.Join(dir, name)
+		lf, err := os.OpenFile(binPath+".lock", os.O_CREATE|os.O_RDWR, 0o644)
 		if err != nil {
 			binErr = err
 			return
@@ -53,15 +76,18 @@ func fabioBin() (string, error) {
 		defer lf.Close()
 		syscall.Flock(int(lf.Fd()), syscall.LOCK_EX)
 		defer syscall.Flock(int(lf.Fd()), syscall.LOCK_UN)
-		if _, err := os.Stat(binPath); err == nil && os.Getenv("VERIF_C02_REBUILD") == "" {
-			return
+		if perRun {
+			if _, err := os.Stat(binPath); err == nil {
+				return
+			}
 		}
-		tmp := binPath + ".tmp"
+		tmp := fmt.Sprintf("%s.tmp%d", binPath, os.Getpid())
 		cmd := exec.Command("go", "build", "-tags", "verif", "-o", tmp, ".")
-		cmd.Dir = repoRoot()
+		cmd.Dir = repo
 		cmd.Env = append(os.Environ(), "GOFLAGS=-mod=mod", "GOPROXY=off")
 		if out, err := cmd.CombinedOutput(); err != nil {
-			binErr = fmt.Errorf("go build -tags verif %s: %v: %s", repoRoot(), err, out)
+			os.Remove(tmp)
+			binErr = fmt.Errorf("go build -tags verif %s: %v: %s", repo, err, out)
 			return
 		}
 		binErr = os.Rename(tmp, binPath)
@@ -159,6 +185,33 @@ func (c *child) call(cmd map[string]interface{}) (json.RawMessage, error) {
 	case <-time.After(60 * time.Second):
 		return nil, errChildHung
 	}
+}
+
+// sessionRaw returns a child in the given mode WITHOUT resetting its loop: the caller sends its own "reset" (with
+// the options of the session) as the first command and calls sessionRestart when that fails.
+func sessionRaw(mode string) (*child, error) {
+	c := children[mode]
+	if c != nil && c.uses >= 40 {
+		c.kill()
+		c = nil
+	}
+	if c != nil {
+		c.uses++
+		return c, nil
+	}
+	return sessionRestart(mode)
+}
+
+func sessionRestart(mode string) (*child, error) {
+	if c := children[mode]; c != nil {
+		c.kill()
+	}
+	c, err := startChild(mode)
+	if err != nil {
+		return nil, err
+	}
+	children[mode] = c
+	return c, nil
 }
 
 // session returns a child in the given mode with a freshly reset loop.
